@@ -17,14 +17,14 @@ pub struct Verdict {
     pub what: String,
 }
 
-fn diverge_any_variant(s: &[u8], lexed: &Lexed, cfg: u8, amb: u8, obs: &[Obs], exp: &[Exp]) -> Option<usize> {
+fn diverge_any_variant(truth: &Truth, cfg: u8, amb: u8, obs: &[Obs], exp: &[Exp]) -> Option<usize> {
     let d = first_divergence(obs, exp)?;
     let mut best = d;
     if amb != 0 {
         let mut alt = Vec::new();
         for v in 1..4u8 {
             if v & amb == v {
-                expected(s, lexed, cfg, v, &mut alt);
+                truth.expected(cfg, v, &mut alt);
                 match first_divergence(obs, &alt) {
                     None => return None,
                     Some(x) => best = best.max(x),
@@ -35,10 +35,77 @@ fn diverge_any_variant(s: &[u8], lexed: &Lexed, cfg: u8, amb: u8, obs: &[Obs], e
     Some(best)
 }
 
+/// The source of truth a run under `cfg` is compared with.
+pub struct Truth {
+    pub items: Vec<Item>,
+    pub fatal: Option<Fatal>,
+    pub final_pos: Option<u64>,
+    pub saw_bare_pi_open: bool,
+    pub label: &'static str,
+}
+
+impl Truth {
+    /// C01: the reference lexer.
+    pub fn from_lexer(input: &[u8]) -> Truth {
+        let s = strip_bom(input);
+        let lexed = lex(s);
+        let mut items = Vec::new();
+        let (fatal, len) = items_from_lex(s, &lexed, &mut items);
+        Truth { items, fatal, final_pos: Some(len), saw_bare_pi_open: lexed.saw_bare_pi_open, label: "reference" }
+    }
+    /// C16: the implementation's own run under the neutral configuration.
+    pub fn from_neutral(input: &[u8]) -> Result<Truth, String> {
+        let mut obs = Vec::new();
+        run_slice(input, NEUTRAL, 0, &mut obs);
+        let mut items = Vec::new();
+        let mut fatal = None;
+        let mut final_pos = None;
+        let mut prev = 0u64;
+        for o in &obs {
+            let (kind, content, name_len) = match &o.ev {
+                Ev::Start(c, n) => (Kind::Start, c.clone(), *n),
+                Ev::Empty(c, n) => (Kind::Empty, c.clone(), *n),
+                Ev::End(c) => (Kind::End, c.clone(), 0),
+                Ev::Text(c) => (Kind::Text, c.clone(), 0),
+                Ev::CData(c) => (Kind::CData, c.clone(), 0),
+                Ev::Comment(c) => (Kind::Comment, c.clone(), 0),
+                Ev::Decl(c) => (Kind::Decl, c.clone(), 0),
+                Ev::PI(c, n) => (Kind::PI, c.clone(), *n),
+                Ev::DocType(c) => (Kind::DocType, c.clone(), 0),
+                Ev::Err(E::MissingDoctypeName) => (Kind::MissingDoctypeName, Vec::new(), 0),
+                Ev::Err(E::Syntax(e)) => {
+                    fatal = Some(Fatal { err: *e, err_pos: Some(o.err_pos), pos: Some(o.pos) });
+                    continue;
+                }
+                Ev::Eof => {
+                    if fatal.is_none() {
+                        final_pos = Some(o.pos);
+                    }
+                    continue;
+                }
+                Ev::Err(other) => return Err(format!("neutral run returned {:?}", other)),
+            };
+            items.push(Item {
+                kind,
+                content,
+                name_len,
+                at: prev,
+                after: o.pos,
+                err_pos: if kind == Kind::MissingDoctypeName { Some(o.err_pos) } else { None },
+            });
+            prev = o.pos;
+        }
+        Ok(Truth { items, fatal, final_pos, saw_bare_pi_open: false, label: "neutral run + documented transformation" })
+    }
+    fn expected(&self, cfg: u8, variant: u8, out: &mut Vec<Exp>) -> u8 {
+        expected_from_items(&self.items, self.fatal.as_ref(), self.final_pos, cfg, variant, out)
+    }
+}
+
 /// Compares one (input, cfg). `known` gates the known-finding signatures.
 pub fn check_one(
     input: &[u8],
-    lexed: &Lexed,
+    truth: &Truth,
     cfg: u8,
     known: &Known,
     obs: &mut Vec<Obs>,
@@ -46,14 +113,14 @@ pub fn check_one(
 ) -> Verdict {
     let s = strip_bom(input);
     run_slice(input, cfg, 0, obs);
-    let amb = expected(s, lexed, cfg, 0, exp);
+    let amb = truth.expected(cfg, 0, exp);
     if first_divergence(obs, exp).is_none() {
         return Verdict { ok: true, known: Vec::new(), what: String::new() };
     }
     let mut used: Vec<&'static str> = Vec::new();
     let mut cur: Vec<Obs> = obs.clone();
     let i = loop {
-        let Some(i) = diverge_any_variant(s, lexed, cfg, amb, &cur, exp) else {
+        let Some(i) = diverge_any_variant(truth, cfg, amb, &cur, exp) else {
             return Verdict { ok: used.is_empty(), known: used, what: String::new() };
         };
         // F7: trim_text_end without trim_text_start reports an empty text: delete exactly the
@@ -72,7 +139,7 @@ pub fn check_one(
         break i;
     };
     // F8: `<?>` is taken as a complete (and then invalid) processing instruction
-    if known.is_open("F8") && lexed.saw_bare_pi_open {
+    if known.is_open("F8") && truth.saw_bare_pi_open {
         if let Some(o) = cur.get(i) {
             if o.ev == Ev::Err(E::Syntax(SyntaxError2::UnclosedPIOrXmlDecl))
                 && s[(o.err_pos as usize).min(s.len())..].starts_with(b"<?>")
@@ -85,7 +152,7 @@ pub fn check_one(
         }
     }
     let what = format!(
-        "input {:?} cfg [{}]: call #{} returned {}, reference says {}",
+        "input {:?} cfg [{}]: call #{} returned {}, {} says {}",
         lossy(input),
         cfg_show(cfg),
         i,
@@ -95,6 +162,7 @@ pub fn check_one(
             o.pos,
             o.err_pos
         )),
+        truth.label,
         exp.get(i).map_or("<nothing: stream ended>".to_string(), |e| format!(
             "{} pos={:?} err_pos={:?}",
             e.ev.show(),
@@ -110,8 +178,8 @@ fn signature(obs: &[Obs]) -> u64 {
     h64(&kinds)
 }
 
-fn case_json(input: &[u8], cfg: u8) -> Value {
-    json!({"input": bytes_json(input), "cfg": cfg, "cfg_names": cfg_show(cfg)})
+fn case_json2(input: &[u8], cfg: u8, neutral: bool) -> Value {
+    json!({"input": bytes_json(input), "cfg": cfg, "cfg_names": cfg_show(cfg), "neutral": neutral})
 }
 
 pub struct Run<'a> {
@@ -120,27 +188,45 @@ pub struct Run<'a> {
     pub layer_no: u32,
     /// inputs up to this length over Σm are counted (as distinct, by construction) by layer A only
     pub a_len: usize,
+    /// false: C01 (reference lexer); true: C16 (neutral run of the implementation)
+    pub neutral: bool,
 }
 
 impl<'a> Run<'a> {
+    fn truth(&self, input: &[u8]) -> Result<Truth, String> {
+        if self.neutral {
+            Truth::from_neutral(input)
+        } else {
+            Ok(Truth::from_lexer(input))
+        }
+    }
+
     pub fn space(&mut self, sp: &Space, cfgs: &[u8], count_distinct: bool) {
         let ln = self.layer_no;
         self.layer_no += 1;
         let seed = self.ctx.seed;
         let known = &self.known;
         let a_len = self.a_len;
+        let this = &*self;
         let mut desc = sp.desc.clone();
         desc["configurations"] = json!(cfgs.len());
         self.ctx.layer(&sp.name, ln, sp.total, desc, |i, acc| {
             let mut input = Vec::new();
             sp.get(i, &mut input);
-            let lexed = lex(strip_bom(&input));
+            let truth = match this.truth(&input) {
+                Ok(t) => t,
+                Err(e) => {
+                    acc.evaluations += 1;
+                    acc.violation((ln, i * 128), format!("input {:?}: {}", lossy(&input), e), case_json2(&input, NEUTRAL, this.neutral));
+                    return;
+                }
+            };
             let mut obs = Vec::new();
             let mut exp = Vec::new();
             for (ci, &cfg) in cfgs.iter().enumerate() {
                 acc.evaluations += 1;
                 acc.traces += 1;
-                let v = check_one(&input, &lexed, cfg, known, &mut obs, &mut exp);
+                let v = check_one(&input, &truth, cfg, known, &mut obs, &mut exp);
                 acc.transitions += obs.len() as u64;
                 if ci == 0 {
                     acc.state(signature(&obs));
@@ -155,7 +241,7 @@ impl<'a> Run<'a> {
                 }
                 if !v.ok {
                     if v.known.is_empty() {
-                        acc.violation((ln, i * 128 + cfg as u64), v.what, case_json(&input, cfg));
+                        acc.violation((ln, i * 128 + cfg as u64), v.what, case_json2(&input, cfg, this.neutral));
                     } else {
                         for id in &v.known {
                             acc.known(id, || format!("{:?} cfg [{}]", lossy(&input), cfg_show(cfg)));
@@ -187,7 +273,7 @@ pub fn run(ctx: &Ctx) {
     let t = ctx.tier;
     let full = cfg!(feature = "full");
     let a_len = t.pick(7, if full { 8 } else { 6 });
-    let mut run = Run { ctx, known: Known::load(), layer_no: 0, a_len: a_len as usize };
+    let mut run = Run { ctx, known: Known::load(), layer_no: 0, a_len: a_len as usize, neutral: false };
     let all_cfgs: Vec<u8> = (0..128).collect();
     let two = [NEUTRAL, DEFAULT];
 
@@ -219,12 +305,12 @@ pub fn run(ctx: &Ctx) {
     ctx.layer("E.corpus", ln, n * 128, json!({"files": docs.iter().map(|d| d.0.clone()).collect::<Vec<_>>(), "configurations": 128}), |i, acc| {
         let (name, bytes) = &docs[(i / 128) as usize];
         let cfg = (i % 128) as u8;
-        let lexed = lex(strip_bom(bytes));
+        let truth = Truth::from_lexer(bytes);
         let mut obs = Vec::new();
         let mut exp = Vec::new();
         acc.evaluations += 1;
         acc.traces += 1;
-        let v = check_one(bytes, &lexed, cfg, known, &mut obs, &mut exp);
+        let v = check_one(bytes, &truth, cfg, known, &mut obs, &mut exp);
         acc.transitions += obs.len() as u64;
         acc.state(signature(&obs));
         if cfg == 0 {
@@ -249,17 +335,21 @@ pub fn replay(case: &Value) -> Result<(), String> {
     } else {
         bytes_from_json(&case["input"])
     };
-    let lexed = lex(strip_bom(&input));
+    let truth = if case.get("neutral").and_then(|n| n.as_bool()) == Some(true) {
+        Truth::from_neutral(&input)?
+    } else {
+        Truth::from_lexer(&input)
+    };
     let mut obs = Vec::new();
     let mut exp = Vec::new();
     let known = Known::load();
-    let v = check_one(&input, &lexed, cfg, &known, &mut obs, &mut exp);
+    let v = check_one(&input, &truth, cfg, &known, &mut obs, &mut exp);
     println!("input:  {:?}\nconfig: {}", lossy(&input), cfg_show(cfg));
     println!("observed:");
     for o in show_trace(&obs) {
         println!("  {}", o.as_str().unwrap());
     }
-    println!("reference:");
+    println!("{}:", truth.label);
     for o in show_exp(&exp) {
         println!("  {}", o.as_str().unwrap());
     }
